@@ -3,6 +3,7 @@
 
 use std::{
     collections::BTreeMap,
+    future::Future,
     net::{IpAddr, Ipv4Addr, SocketAddr},
     sync::Arc,
     time::Duration,
@@ -115,6 +116,25 @@ struct Shared {
     open: Vec<(char, usize, librqbit_utp::UtpStream)>,
 }
 
+type AcceptFut = std::pin::Pin<Box<dyn std::future::Future<Output = ()> + Send>>;
+
+/// Lets `dur` of virtual time pass while the accept futures the harness holds keep being polled.
+async fn pause(dur: Duration, futs: &mut Vec<Option<AcceptFut>>) {
+    let sleep = tokio::time::sleep(dur);
+    tokio::pin!(sleep);
+    std::future::poll_fn(|cx| {
+        for f in futs.iter_mut() {
+            if let Some(fut) = f {
+                if fut.as_mut().poll(cx).is_ready() {
+                    *f = None;
+                }
+            }
+        }
+        sleep.as_mut().poll(cx)
+    })
+    .await
+}
+
 fn raw_header(ptype: u8, conn_id: u16, seq: u16, ack: u16, wnd: u32, payload: &[u8]) -> Vec<u8> {
     let mut b = vec![0u8; 20];
     b[0] = (ptype << 4) | 1;
@@ -155,15 +175,17 @@ async fn run_async(script: &SockScript) -> SockLog {
     }
     let shared = Arc::new(Mutex::new(Shared { connects: vec![], accepts: vec![], open: vec![] }));
     let mut connect_tasks: Vec<Option<tokio::task::JoinHandle<()>>> = vec![];
-    let mut accept_tasks: Vec<Option<tokio::task::JoinHandle<()>>> = vec![];
+    let mut accept_futs: Vec<Option<AcceptFut>> = vec![];
     let mut event_times = vec![];
     let mut task_panic: Option<String> = None;
 
     for (ev, same_instant) in &script.events {
         if !*same_instant {
             // everything runnable runs before the next event is issued
-            tokio::time::sleep(Duration::from_micros(1)).await;
+            pause(Duration::from_micros(1), &mut accept_futs).await;
         }
+        // same instant: issued back to back, nothing else runs in between (accept futures get their
+        // first poll when they are issued; spawned connects and deliveries run at the next pause)
         let now = net.now_us();
         event_times.push(now);
         match ev {
@@ -222,7 +244,7 @@ async fn run_async(script: &SockScript) -> SockLog {
                 let s = socks[*sock as usize].clone();
                 let sh = shared.clone();
                 let netc = net.clone();
-                accept_tasks.push(Some(tokio::spawn(async move {
+                let mut fut: AcceptFut = Box::pin(async move {
                     let r = s.accept().await;
                     let t = netc.now_us();
                     match r {
@@ -239,7 +261,7 @@ async fn run_async(script: &SockScript) -> SockLog {
                             let mut g = sh.lock();
                             if let Ok(Ok(_)) = rr {
                                 let tok = u64::from_be_bytes(buf[..8].try_into().unwrap());
-                                let cidx = ((tok - 0xC0DE_0000_0000) / 0x0101) as usize;
+                                let cidx = ((tok.wrapping_sub(0xC0DE_0000_0000)) / 0x0101) as usize;
                                 let ok = (0..32u64).all(|i| buf[8 + i as usize] == coded(i, (cidx as u8).wrapping_mul(17).wrapping_add(3)));
                                 g.accepts[idx].done = Done::Ok { remote, token: Some(tok), payload_ok: ok };
                             }
@@ -251,13 +273,17 @@ async fn run_async(script: &SockScript) -> SockLog {
                             g.accepts[idx].done = Done::Err(e.to_string());
                         }
                     }
-                })));
+                });
+                // the first poll happens right here (the request is enqueued at the socket); later polls
+                // happen whenever the harness waits; dropping it (AcceptCancel) is synchronous
+                let first = std::future::poll_fn(|cx| std::task::Poll::Ready(fut.as_mut().poll(cx).is_ready())).await;
+                accept_futs.push(if first { None } else { Some(fut) });
             }
             Ev::AcceptCancel(n) => {
-                if let Some(Some(h)) = accept_tasks.get(*n as usize) {
+                if let Some(slot) = accept_futs.get_mut(*n as usize) {
                     let pending = matches!(shared.lock().accepts[*n as usize].done, Done::Pending);
-                    if pending {
-                        h.abort();
+                    if pending && slot.is_some() {
+                        *slot = None; // dropped right now, before the socket dispatcher runs again
                         shared.lock().accepts[*n as usize].done = Done::Cancelled;
                         shared.lock().accepts[*n as usize].done_us = Some(now);
                     }
@@ -291,8 +317,8 @@ async fn run_async(script: &SockScript) -> SockLog {
                     drop(s);
                 }
             }
-            Ev::Settle => tokio::time::sleep(Duration::from_millis(50)).await,
-            Ev::Wait(ms) => tokio::time::sleep(Duration::from_millis(*ms)).await,
+            Ev::Settle => pause(Duration::from_millis(50), &mut accept_futs).await,
+            Ev::Wait(ms) => pause(Duration::from_millis(*ms), &mut accept_futs).await,
             Ev::Stray { to, kind } => {
                 let log = net.snapshot_log();
                 // the newest established connection towards `to` (its SYN-ACK on the wire tells the ids)
@@ -310,8 +336,9 @@ async fn run_async(script: &SockScript) -> SockLog {
         }
     }
     // let everything play out: SYN-ACK retries to fake peers end after max_retx x 200 ms
-    tokio::time::sleep(Duration::from_millis(1500)).await;
-    for h in connect_tasks.iter_mut().chain(accept_tasks.iter_mut()) {
+    pause(Duration::from_millis(4500), &mut accept_futs).await;
+    accept_futs.clear();
+    for h in connect_tasks.iter_mut() {
         if let Some(h) = h.take() {
             if h.is_finished() {
                 if let Err(e) = h.await {
